@@ -58,6 +58,7 @@ pub fn gen_base(env: &Env, prop: &str, run_seed: u64, teardown: bool) -> Base {
     let (mut cfg, mut gs, _) = gen_config(&mut rng, &prof, env.overhead);
     // small universes and capacities so that reallocation, eviction and collisions are all near
     cfg.universe = 1 + rng.below(8) as u32;
+    cfg.prefill = 0;
     if let Ctor::WithCapacityAndHasher(n) = cfg.ctor {
         if n > 30 {
             cfg.ctor = Ctor::WithCapacityAndHasher(n % 16);
